@@ -5,6 +5,7 @@
 package c17
 
 import (
+	"verif/harness/internal/c05"
 	"context"
 	"encoding/json"
 	"errors"
@@ -89,12 +90,15 @@ func Run(d *fw.Driver, res *fw.Result, seed int64, thorough bool) error {
 				return err
 			}
 		}
-		for _, when := range []string{"idle", "during-call", "busy"} {
+		for _, when := range []string{"idle", "during-call", "busy", "from-start"} {
 			base += 20
 			if err := silent(d, res, seed, p, when, base); err != nil {
 				return err
 			}
 		}
+	}
+	if err := c05.KeepaliveAfterHeal(d, res, seed+900); err != nil {
+		return err
 	}
 	return slowPeer(res)
 }
@@ -112,6 +116,26 @@ func healthy(d *fw.Driver, res *fw.Result, seed int64, p pt, serverPing time.Dur
 		return err
 	}
 	sig := fmt.Sprintf("healthy ping=%v timeout=%v server-ping=%v", p.P, p.T, serverPing)
+	// the verdicts below are conclusive only if the environment was responsive: the findings of this
+	// scenario go through a local result first
+	outer := res
+	res = fw.NewResult("C17", seed, "")
+	probe := scen.StartLagProbe()
+	defer func() {
+		lag := probe.Stop()
+		gap, frames := e.MaxGapS2C(1)
+		envOK := lag < p.T/4 && (frames < 2 || gap < p.T*6/10)
+		for _, f := range res.Findings {
+			if f.Kind == "monitor" && !envOK {
+				outer.Count("healthy.inconclusive-slow-environment")
+				outer.Note(fmt.Sprintf("%s: verdict %q dropped as inconclusive — the environment was not responsive enough for timeout %v (max scheduling lag %v, max gap between peer frames on the wire %v)", sig, f.Signature, p.T, lag, gap))
+				continue
+			}
+			outer.Add(f)
+		}
+		outer.Traces += res.Traces
+		outer.Events += res.Events
+	}()
 	// a call several timeouts long, then an idle period, then short calls
 	long := make(chan error, 1)
 	go func() {
@@ -149,14 +173,18 @@ func healthy(d *fw.Driver, res *fw.Result, seed int64, p pt, serverPing time.Dur
 	if err := check(d, res, e, p.T, false, sig); err != nil {
 		return err
 	}
-	res.Count("healthy")
-	res.Eval(true, []interface{}{"healthy", p.P.String(), p.T.String(), serverPing.String()})
-	res.Sample(map[string]interface{}{"scenario": sig, "connections_accepted": e.PX.Accepted()})
+	outer.Count("healthy")
+	outer.Eval(true, []interface{}{"healthy", p.P.String(), p.T.String(), serverPing.String()})
+	outer.Sample(map[string]interface{}{"scenario": sig, "connections_accepted": e.PX.Accepted()})
 	return nil
 }
 
 func silent(d *fw.Driver, res *fw.Result, seed int64, p pt, when string, base int) error {
-	e, err := scen.NewEnv(seed, 0, jsonrpc.WithServerPingInterval(p.P))
+	sp := p.P
+	if when == "from-start" {
+		sp = 5 * time.Second // the peer never shows a sign of life on this connection: not even a ping
+	}
+	e, err := scen.NewEnv(seed, 0, jsonrpc.WithServerPingInterval(sp))
 	if err != nil {
 		return err
 	}
@@ -169,8 +197,10 @@ func silent(d *fw.Driver, res *fw.Result, seed int64, p pt, when string, base in
 		return err
 	}
 	sig := fmt.Sprintf("silent-peer ping=%v timeout=%v when=%s", p.P, p.T, when)
-	if v, err := cl.Count(ctx, base+1); err != nil || v != base+1 {
-		return fmt.Errorf("warm-up call failed: %v", err)
+	if when != "from-start" {
+		if v, err := cl.Count(ctx, base+1); err != nil || v != base+1 {
+			return fmt.Errorf("warm-up call failed: %v", err)
+		}
 	}
 	pending := make(chan error, 1)
 	if when == "during-call" {
@@ -183,7 +213,7 @@ func silent(d *fw.Driver, res *fw.Result, seed int64, p pt, when string, base in
 	e.RT.Log("harness.cut")
 	e.PX.Cut(0, "blackhole")
 	bound := 4*p.T + 100*time.Millisecond
-	if when == "busy" {
+	if when == "busy" || when == "from-start" {
 		// local traffic keeps the main loop iterating (its idle timer never fires): only the read deadline
 		// can notice the silence
 		stopBusy := make(chan struct{})
